@@ -325,7 +325,8 @@ Definition check_with (chk : oracles -> conn_cfg -> mst -> tev -> bool) (c : con
   if k =? 4 then 4
   else k + moni (accepts (step_with (chk (case_oracles c) (cc_cfg c))) m_init (obs_trace c)
                  && negb (outcome_eqb (cc_outcome c) (OErr KPanic))     (* a crashed handler satisfies nothing *)
-                 && negb (Z.testbit (cc_flags c) 4)).   (* nothing may follow an Encryption Response whose secret is no AES-128 key *)
+                 && negb (Z.testbit (cc_flags c) 4)     (* nothing may follow an Encryption Response whose secret is no AES-128 key *)
+                 && negb (Z.testbit (cc_flags c) 5)).   (* the handler kept reading (> 1000 times) after the end of the client's stream *)
 
 Definition check_c06 := check_with (fun _ _ => chk_c06).
 Definition check_c01 := check_with chk_c01.
@@ -416,13 +417,13 @@ Definition obs_c07 (c : conn_case) : bool :=
   | None => true
   | Some (ts, _, _) =>
       if status then true else
-      match find (fun x => match x with (t, IFrame id _) => (ts <=? t) && (id =? 3) | _ => false end) (cc_inbox c) with
+      match find (fun x => match x with (t, IFrame id _) => (ts <=? t) && (id =? 3) | _ => false end) (case_inbox c) with
       | None => true
       | Some (tack, _) =>
           let frames := map (fun x => match x with
                                       | (t, IFrame id b) => (t, TRecv id b)
                                       | (t, _) => (t, TTick) end)
-                            (filter (fun x => (tack <? fst x) && (fst x <=? cc_end c)) (cc_inbox c)) in
+                            (filter (fun x => (tack <? fst x) && (fst x <=? cc_end c)) (case_inbox c)) in
           let sends := map (fun x => match x with (t, id, body) =>
                               let p := cb_packet false true id in
                               (t, obs_decode p body) end)
@@ -462,7 +463,7 @@ Definition obs_c04 (c : conn_case) : bool :=
      | _, _ => true
      end.
 
-Definition check_c04 (c : conn_case) : Z := corr_conn c + moni (obs_c04 c).
+Definition check_c04 (c : conn_case) : Z := corr_conn c + moni (obs_c04 c && negb (Z.testbit (cc_flags c) 5)).
 
 (* the same frames whether delivered whole or in pieces: when the input was framed, the
    reader applied to the raw segments must give back the scripted frames *)
@@ -674,6 +675,7 @@ Definition check_c08c (c : conn_case) : Z :=
   if k =? 4 then 4 else
   k + moni (negb (outcome_eqb (cc_outcome c) (OErr KPanic))
             && negb (Z.testbit (cc_flags c) 1)
+            && negb (Z.testbit (cc_flags c) 5)
             && sends_wellformed c
             && obs_writes c
             && seg_independent c
@@ -684,8 +686,21 @@ Definition check_c08c (c : conn_case) : Z :=
                      end))
     + m1m2_class c.
 
+(* "a frame whose declared length is non-positive or exceeds the configured maximum is refused before
+   its body is buffered": when the handler of the model meets such a prefix (it refuses at the instant
+   the prefix is complete), the implementation must have refused by then too - not gone on reading *)
+Definition refused_in_time (c : conn_case) : bool :=
+  match tr_end (case_trace2 c) with
+  | Some (tm, OErr KIllegalLen) =>
+      match first_badlen (frames_of (cf_max_len (cc_cfg c)) (cc_segs c)) with
+      | Some tb => if tb =? tm then outcome_eqb (cc_outcome c) (OErr KIllegalLen) && (cc_end c <=? tm) else true
+      | None => true
+      end
+  | _ => true
+  end.
+
 Definition check_c04c (c : conn_case) : Z :=
-  let k := corr_conn2 c in if k =? 4 then 4 else k + moni (obs_c04 c).
+  let k := corr_conn2 c in if k =? 4 then 4 else k + moni (obs_c04 c && refused_in_time c && negb (Z.testbit (cc_flags c) 5)).
 
 (* exact (timed) correspondence with the FRAME-level model on what the byte-level reader makes of the
    delivered segments: what the handler must do if its behaviour does not depend on segmentation *)
